@@ -45,7 +45,7 @@ type MakeOctets struct {
 func (f *MakeOctets) Call(s *slip.Scope, args slip.List, depth int) slip.Object {
 	slip.CheckArgCount(s, depth, f, args, 1, 2)
 	size, ok := args[0].(slip.Fixnum)
-	if !ok || size < 0 {
+	if !ok || size < 0 || slip.ArrayMaxDimension < size {
 		slip.TypePanic(s, depth, "size", args[0], "fixnum")
 	}
 	ba := make([]byte, size)
